@@ -355,6 +355,7 @@ impl Word {
         if CARDINALS_TRIE.contains_prefix(buffer.as_str()) {
             *i += 1;
             while *i < txt.len() {
+                #[cfg(asca_verif)] crate::verif::tick(70);
                 let mut tmp = buffer.clone(); tmp.push(self.to_ipa(txt[*i]));
                 if CARDINALS_TRIE.contains_prefix(tmp.as_str()) {
                     buffer.push(self.to_ipa(txt[*i]));
@@ -463,6 +464,7 @@ impl Word {
         let mut sy = Syllable::new();
 
         while i < txt.len() {
+            #[cfg(asca_verif)] crate::verif::tick(71);
 
             // Primary or Secondary Stress
             if txt[i] == 'ˌ' || txt[i] == 'ˈ' {
@@ -734,6 +736,7 @@ impl Word {
 
             let mut j = 0;
             'outer: while j < syll.segments.len() {
+                #[cfg(asca_verif)] crate::verif::tick(72);
                 if j != 0 && syll.segments[j] == syll.segments[j-1] {
                     // TODO: Need to skip if we matched length last time
                     buffer.push('ː');
